@@ -6,6 +6,7 @@
 
 using namespace verif;
 
+static std::atomic<std::uint64_t> g_slow_returns{0}, g_entry_returned_stamp{0};
 static void vio(std::string const& what, std::string const& detail) { report.violation("C05:" + what, detail); }
 
 constexpr int MAXG = 4096;
@@ -136,6 +137,7 @@ int main(int argc, char** argv)
         std::uint64_t small = r.chance(1, 2) ? 0 : (0x8000 + 0x4000 * r.below(4));
         int code = 100 + inc * 7 + (int) r.below(5);
         bool entry_finalizes = r.chance(1, 3);
+        bool slow_return = r.chance(2, 3);
         std::vector<std::string> av{"c05", "--pika:threads=" + std::to_string(threads), std::string("--pika:scheduler=") + policy_names[pol]};
         // TSan runs keep the default binding: with bind=none pika has a start-up race on a function-static mask
         // (affinity_data::get_pu_mask) that has nothing to do with this property
@@ -148,11 +150,21 @@ int main(int argc, char** argv)
         int entry_group = new_group();
         mark_op("start()");
         pika::start(
-            [&, code, entry_finalizes, inc]() -> int {
+            [&, code, entry_finalizes, slow_return, inc]() -> int {
                 entry_ran = true;
                 for (int i = 0; i < 3; ++i) tree(entry_group, 3, g_seed * 31 + inc * 7 + i, inc);
                 g_group_complete[entry_group] = true;
                 if (entry_finalizes) pika::finalize();
+                if (entry_finalizes && slow_return)
+                {
+                    // the entry function keeps working after finalize(): stop() must still return ITS result, and only once
+                    // it has returned
+                    g_slow_returns++;
+                    spin_us(500 + (unsigned) (code * 37 % 9000));
+                    for (int i = 0; i < 3; ++i) pika::this_thread::yield();
+                    spin_us(300);
+                }
+                g_entry_returned_stamp = now_ns();
                 return code;
             },
             (int) argvv.size(), argvv.data());
@@ -263,6 +275,8 @@ int main(int argc, char** argv)
         mark_op("-");
         hist += sf("stop->%d | ", rc);
         if (!entry_ran.load()) vio("entry-not-run", "the entry function did not run");
+        if (g_entry_returned_stamp.load() == 0) vio("stop:before-entry-returned", "stop() returned before the entry function had returned");
+        g_entry_returned_stamp = 0;
         if (rc != code) vio("stop:result", sf("stop() returned %d, the entry function returned %d", rc, code));
         check_groups(my_groups, "stop()");
     }
@@ -274,6 +288,7 @@ int main(int argc, char** argv)
     report.add("groups_checked_after_call", g_wait_groups_checked.load());
     report.add("suspend_cycles", g_susp_cycles.load());
     report.bit("restart", g_incarnations.load() > 1 ? g_incarnations.load() : 0);
+    report.bit("entry_keeps_working_after_finalize", g_slow_returns.load());
     report.bit("wait_with_concurrent_submitter", g_ext_groups.load());
     report.bit("suspend_cycle", g_susp_cycles.load());
     report.bit("queued_while_suspended", g_queued_while_suspended.load());
